@@ -160,7 +160,8 @@ def wl_cms(ctx, rng, case):
         ctx.check(s.confidence == conf and s.error_rate == err, f"confidence/error_rate accessors do not report the request {where}")
         s2 = cls(confidence=conf, error_rate=err)
         ctx.check((s2.width, s2.depth) == (w, d), f"two constructions disagree {where}")
-        s.add("k", 2)
+        if not (cls is P.CountMeanMinSketch and w == 1):
+            s.add("k", 2)  # (the mean-min query divides by width-1: a width-1 mean-min sketch cannot answer, outside every property)
         r = cls.frombytes(bytes(s))
         ctx.check((r.width, r.depth) == (w, d), f"reloaded sketch has another geometry {where}", got=(r.width, r.depth), want=(w, d))
         ctx.check(len(bytes(s)) == 4 * w * d + 16, f"export length is not 4*width*depth+16 {where}", got=len(bytes(s)))
